@@ -382,7 +382,26 @@ func emitInput(g *h.G, class string, bs []byte) {
 	g.Count(class)
 	g.Emit("boc.parse", hx)
 	g.Emit("go.parse", hx)
+	if class == "seed_valid" || class == "dag_bomb" || class == "depth_boundary_chain" || g.N%8 == 0 {
+		g.Emit("boc.tostring", hx)
+	}
 	g.NonTrivial(hx)
+}
+
+// bombBoc: k levels, every cell refers m times to the next one: 2·k+… bytes of input, m^k nodes unfolded.
+func bombBoc(k, m int) []byte {
+	t := make([]h.Row, k)
+	for i := range t {
+		t[i] = h.Row{BitLen: 8, Data: []byte{byte(i)}}
+		if i+1 < k {
+			for j := 0; j < m; j++ {
+				t[i].Refs = append(t[i].Refs, i+1)
+			}
+		}
+	}
+	tot := h.DataSize(1, t, nil)
+	off := (bits.Len(uint(tot)) + 7) / 8
+	return h.EmitBoc(h.EmitParams{Size: 1, OffBytes: off}, t, []int{0})
 }
 
 // seedBocs: own output for small DAGs (Go writer, all option sets; reference writer, all header variants) and a few
@@ -513,6 +532,10 @@ func genC07(g *h.G) {
 			bs = append(append([]byte{}, h.MagicBytes[k]...), bs...)
 		}
 		emitInput(g, "random", bs)
+	}
+	// (e0) DAG bombs: tiny inputs whose unfolding is exponential (printing must stay within its visit budget)
+	for _, km := range [][2]int{{9, 4}, {10, 3}, {16, 2}, {17, 2}, {18, 2}, {23, 2}, {12, 4}, {30, 2}, {40, 3}, {60, 2}, {60, 4}} {
+		emitInput(g, "dag_bomb", bombBoc(km[0], km[1]))
 	}
 	// (e) deep acyclic chains: the hasher recurses once per level before it can answer ErrDepthIsTooBig
 	for _, n := range []int{1024, 1025, 1026, 1027, 3000} {
